@@ -169,34 +169,53 @@ class C06(Prop):
         cfg.zero_len_same_start_ok = False
         cfg.p_sync = 0.0
         cfg.p_event_sync = 0.0
+        if rng.random() < 0.3:      # ranks that use different sets of streams
+            cfg.n_ranks = max(cfg.n_ranks, 2)
         case = case_from_cfg(rng, cfg)
-        case["rank"] = rng.randrange(len(case["ranks"]))
+        n = len(case["ranks"])
+        if rng.random() < 0.3 and n >= 2:
+            for r in case["ranks"][1:]:          # move the later ranks' activities of stream 7 to a stream the first rank does not use
+                for e in r["events"]:
+                    if e.get("pid") == 0 and e.get("args", {}).get("stream") == 7:
+                        e["args"]["stream"] = 21
+                        e["tid"] = 21
+        case["req"] = rng.sample(range(n), rng.randint(1, n))
         case["thr"] = rng.choice([1, 2, 5, 30, 31])
-        case["sub"] = rng.random() < 0.4
+        case["calls"] = [rng.choice(["all", "sub", "empty"]), rng.choice(["all", "sub"])]     # a history of two calls on the same object
         case["subseed"] = rng.randrange(1000)
         case["prefix"] = draw_prefix(rng)
         return case
 
     def observe(self, case):
+        KC = ("kernel", "gpu_memcpy", "gpu_memset")
         with hta.CaseDir("c06") as d:
             ta = write_and_load(case, d)
-            r = case["rank"]
-            rows = rows_full(ta, r)
-            streams = sorted({x["stream"] for x in rows if x["stream"] != -1 and x["cat"] in ("kernel", "gpu_memcpy", "gpu_memset")})
-            if not streams:
+            req = [r for r in case["req"] if r in ta.t.traces]
+            rows = {r: rows_full(ta, r) for r in req}
+            own = {r: sorted({x["stream"] for x in rows[r] if x["stream"] != -1 and x["cat"] in KC}) for r in req}
+            if not req or any(not own[r] for r in req):
                 return {"skip": True}
-            if case["sub"]:
-                rr = random.Random(case["subseed"])
-                streams = sorted(rr.sample(streams, rr.randint(1, len(streams))))
-                arg = streams
-            else:
-                arg = None
             obs = {"prop": "C06", "err": "", "thr": case["thr"], "ranks": []}
+            rr = random.Random(case["subseed"])
+            allstreams = sorted({s for r in req for s in own[r]})
             try:
-                df, _ = ta.get_idle_time_breakdown(ranks=[r], streams=arg, visualize=False, consecutive_kernel_delay=case["thr"])
-                out = [{"stream": hta.ival(t[0]), "cat": str(t[1]), "idle": hta.ival(t[2]), "ratio": hta.scaled(t[3], 100) if t[3] == t[3] else 0}
-                       for t in df[["stream", "idle_category", "idle_time", "idle_time_ratio"]].itertuples(index=False)]
-                obs["ranks"].append({"rank": r, "rows": rows, "streams": streams, "out": out})
+                for mode in case["calls"]:
+                    if mode == "sub":
+                        arg = sorted(rr.sample(allstreams, rr.randint(1, len(allstreams))))
+                        if any(not set(arg) & set(own[r]) for r in req):
+                            arg = None          # a rank without any of the requested streams has nothing to report: keep to the defaults
+                    elif mode == "empty":
+                        arg = []
+                    else:
+                        arg = None
+                    df, _ = ta.get_idle_time_breakdown(ranks=list(req), streams=None if arg is None else list(arg), visualize=False,
+                                                       consecutive_kernel_delay=case["thr"])
+                    for r in req:
+                        sub = df[df["rank"].eq(r)]
+                        out = [{"stream": hta.ival(t[0]), "cat": str(t[1]), "idle": hta.ival(t[2]), "ratio": hta.scaled(t[3], 100) if t[3] == t[3] else 0}
+                               for t in sub[["stream", "idle_category", "idle_time", "idle_time_ratio"]].itertuples(index=False)]
+                        expect = own[r] if not arg else [s for s in arg if s in own[r]]
+                        obs["ranks"].append({"rank": r, "rows": rows[r], "streams": expect, "out": out, "call": mode})
             except Exception as ex:
                 obs["err"] = hta.exc_str(ex)
             return obs
